@@ -100,7 +100,7 @@ def props_for(m):
         if fn.startswith("MemoryStore."): return ["C10", "C11", "C12", "C09", "C03"]
         return ["C09", "C12", "C13", "C11"]
     if f == "upcast.go": return ["C16", "C17", "C15", "C03"]
-    if f.startswith("state/"): return ["C18", "C19"]
+    if f.startswith("state/"): return ["C18", "C19", "C03"]
     if f.startswith("stores/sqlite/"): return ["C10", "C11", "C14", "C12", "C03", "C09", "C13"]
     if f.startswith("stores/durablestream/"): return ["C10", "C11", "C13", "C09"]
     if f.startswith("otel/"): return ["C20", "C08"]
